@@ -81,7 +81,7 @@ class Item:
         else:
             vs = []
             for i, (discr, shape, fs) in enumerate(self.variants):
-                d = '' if discr is None else ' = %d' % discr
+                d = '' if discr is None else (' = %s' % discr[1] if isinstance(discr, tuple) else ' = %d' % discr)
                 if shape == 'unit' or not fs:
                     body = ''
                 elif shape == 'named':
@@ -98,7 +98,7 @@ class Item:
             return '(item union)'
         if self.kind == 'struct':
             return '(item struct %s (fields%s))' % (item_attrs_sx(self.attrs), ''.join(' ' + f.sx() for f in self.fields))
-        vs = ''.join(' (v %s%s)' % ('_' if d is None else str(d), ''.join(' ' + f.sx() for f in fs)) for d, sh, fs in self.variants)
+        vs = ''.join(' (v %s%s)' % ('_' if d is None else str(d[0] if isinstance(d, tuple) else d), ''.join(' ' + f.sx() for f in fs)) for d, sh, fs in self.variants)
         return '(item enum %s (variants%s))' % (item_attrs_sx(self.attrs), vs)
 
 def legal_field(rnd):
@@ -148,6 +148,13 @@ def build(seed, thorough):
     # large legal discriminants when tags are ordinals; 256 variants; discriminant 255 as last tag
     add(Item('enum', attrs=[['use_false']], variants=[(300, 'unit', []), (None, 'unit', []), (70000, 'unit', [])], repr_='u32'), 'accept', 'control-wide-discriminants-ordinal-tags')
     add(Item('enum', attrs=[['use_false']], variants=[(-3, 'unit', []), (None, 'unit', [])], repr_='i8'), 'accept', 'control-negative-discriminant-ordinal-tags')
+    # discriminants written as constant expressions of every operator precedence (finding F9: they are
+    # spliced into `<expr> + 1` and `variant_tag == <expr>`)
+    for use in ('use_true', 'use_false'):
+        add(Item('enum', attrs=[[use]], variants=[((4, '1 << 2'), 'unit', []), (None, 'unit', []), ((2, '6 & 3'), 'unit', []), (None, 'unit', []),
+                                                 ((9, '1 | 8'), 'unit', []), (None, 'unit', []), ((20, '17 ^ 5'), 'unit', []), (None, 'unit', []),
+                                                 ((30, '(2 + 3) * 6'), 'unit', []), ((32, '10 % 4 + 30'), 'unit', []), (None, 'unit', [])]),
+            'accept', 'control-expression-discriminants')
     add(Item('enum', variants=[(None, 'unit', [])] * 256), 'accept', 'control-256-variants')
     add(Item('enum', attrs=[['use_true']], variants=[(None, 'unit', []), (254, 'unit', []), (None, 'unit', [])]), 'accept', 'control-implicit-255')
     add(Item('enum', attrs=[['use_true']], variants=[(255, 'unit', [])]), 'accept', 'control-explicit-255')
